@@ -545,6 +545,7 @@ func (area) Execute(raw json.RawMessage) (term string, info *hcommon.Info, err e
 	pagesInSession := map[int]int{}
 
 	// observe appends the observation that follows a call.
+	races := 0
 	busy := -1                     // directory whose lock a parked call holds on purpose
 	lastChange := map[int]uint64{} // change counters as last read
 	observe := func(opTerm, method string, r *result) {
@@ -981,7 +982,8 @@ func (area) Execute(raw json.RawMessage) (term string, info *hcommon.Info, err e
 						}
 						a = p
 					}
-					newName := "moved"
+					races++
+					newName := fmt.Sprintf("mv%d", races) // never bound: the rename must not need any child lock
 					run(mr, func() {
 						ci1, ci2, s := w.dirs[d].VirtualRename(ctx, path.MustNewComponent(ynames[y]), w.dirs[d2], path.MustNewComponent(newName))
 						mr.status = statusName(s)
